@@ -84,7 +84,7 @@ for k, (rel, i, desc, new) in enumerate(pool):
     open(path, 'w').write('\n'.join(lines))
     t0 = time.time()
     try:
-        p = subprocess.run([os.path.join(VERIF, 'check'), check, 'quick'], capture_output=True, text=True, cwd=VERIF, env=env, timeout=3600)
+        p = subprocess.run([os.path.join(VERIF, 'check'), check, 'quick'], capture_output=True, text=True, cwd=VERIF, env=env, timeout=900)
         rc, outtxt = p.returncode, p.stdout
     except subprocess.TimeoutExpired:
         rc, outtxt = -9, 'TIMEOUT'
